@@ -61,6 +61,11 @@ def rule_a(prog, rep):
                 has_lt2 = any(k == "lt2" and r in ("COUNT", "VALIDCOUNT") for k, r in kinds)
                 has_miss = any(k == "ne0" and r == "MISSINGCOUNT" for k, r in kinds) or any(k == "ne0" for k, r in kinds)
                 ok = has_lt2 and (ign or has_miss)
+                if not ok and any(r in ("?", None) for k, r in kinds):
+                    # the mask tests a region whose fill this model could not read (the fill was restructured): which
+                    # counter it is - and so whether the "fewer than two valid rows" test is there - is not decided
+                    rep.undecided("R-C18-a", where, cons, "the mask tests %s, but the region behind `?` is filled in a form the model does not read" % " | ".join("%s(%s)" % a for a in sorted(kinds, key=str)))
+                    continue
                 rep.check(ok, "R-C18-a", where, cons, " | ".join("%s(%s)" % a for a in sorted(kinds)),
                           "missing when %s: a cell with exactly one valid row is not reported missing although its standard deviation is undefined (NaN value with validity True in the pair format)"
                           % (" | ".join("%s(%s)" % a for a in sorted(kinds))),
@@ -83,6 +88,19 @@ def rule_b(prog, rep):
         ok = s is not None and s[0] is not None and s[0].op == "call" and tm.callee_name(s[0]) == "numpy.isnan" and s[0].args[1] and m.pos_of(s[0].args[1][0]) == 0
         rep.check(ok, "R-C18-b", "xfuncs:xfunc_%s.reduce" % name, "%s: missing mask = isnan(result region) taken before the sentinel is stored" % name, "", "mask is %s" % (s and s[0] is not None and tm.show(s[0])[:60]))
     rep.floor("R-C18-b", 50, n)
+
+
+def _incomplete(I):
+    """Did the walker meet something it could not follow in this activation (arguments passed through *args, a generator
+    whose elements it cannot pair up, an unsupported statement)?  A rule that did not find its pattern then says UNDECIDED:
+    the pattern may be behind the part that was not read."""
+    for ev in I.events:
+        if ev.kind == "unsupported":
+            return "unsupported statement at line %d" % ev.line
+        for v in AT._terms(ev):
+            if tm.contains(v, lambda x: x.op == "unknown"):
+                return "a value the walker could not follow (%s) at line %d" % (tm.show(v)[:50], ev.line)
+    return None
 
 
 def rule_c(prog, rep):
@@ -108,6 +126,9 @@ def rule_c(prog, rep):
         fi, I, fr = m.fill
         valid_t = m.fields.get("validity")
         sel = any(tm.contains(v, lambda x: x.op == "sub" and x.args[1] == valid_t) for ev in I.events for v in AT._terms(ev))
+        if not sel and _incomplete(I):
+            rep.undecided("R-C18-c", "xfuncs:xfunc_%s.fill" % name, "%s, ignore_missing: rows are selected by validity before the statistic is computed" % name, "no selection found, but the fill was not read completely: %s" % _incomplete(I))
+            continue
         rep.check(sel, "R-C18-c", "xfuncs:xfunc_%s.fill" % name, "%s, ignore_missing: rows are selected by validity before the statistic is computed" % name, "", "no selection by validity under ignore_missing",
                   witness={"inputs": "a cell with one missing row: the result must be computed from the others"})
     for ign, want in ((False, "numpy.quantile"), (True, "numpy.nanquantile")):
@@ -187,6 +208,10 @@ def rule_d(prog, rep):
         fi, I, fr = ms.fill
         sq = [e for e in I.events if e.kind == "call" and e["name"] == "numpy.sqrt"]
         ok = bool(sq) and all(e["args"][0].op == "binop" and e["args"][0].args[0] == "/" and e["args"][0].args[2].op == "binop" and e["args"][0].args[2].args[0] == "-" and tm.is_const(e["args"][0].args[2].args[2], 1) for e in sq)
+        if not ok and (not sq or _incomplete(I)):
+            rep.undecided("R-C18-d", fi.fq, "unweighted stddev (%s) = sqrt(sum of squared deviations / (N - 1))" % ("by coordinates" if co else "no coordinates"),
+                          "the square root was not found in the recognised form and the fill was not read completely: %s" % (_incomplete(I) or "no numpy.sqrt call reached"))
+            continue
         rep.check(ok, "R-C18-d", fi.fq, "unweighted stddev (%s) = sqrt(sum of squared deviations / (N - 1))" % ("by coordinates" if co else "no coordinates"), "%d call sites" % len(sq), "divisor is not N - 1",
                   witness={"inputs": "two rows 1 and 3: 1.414 expected"})
 
@@ -637,6 +662,12 @@ def rule_j(prog, rep):
             I2.run(f2)
             sq = [e for e in I2.events if e.kind == "call" and e["name"] == "numpy.sqrt" and e["args"]]
             stored = [e for e in I2.events if e.kind == "store_sub" and tm.contains(e["value"], lambda x: x.op == "call" and tm.callee_name(x) == "numpy.sqrt")]
+            if not (len(sq) == 1 and len(stored) == 1) and (len(sq) > 1 or _incomplete(I2)):
+                # more than one sqrt on the branch: the oracle did not separate the weighted / unweighted paths (the test moved
+                # into a helper); or the routine was not read completely
+                rep.undecided("R-C18-j", f2.fq, "%s, %s: the standard deviation is computed and stored once" % (q.split(".")[-1], "weighted" if wmode else "unweighted"),
+                              "%d sqrt call(s), %d store(s): the weighted / unweighted branches were not separated (%s)" % (len(sq), len(stored), _incomplete(I2) or "the `weights is None` test is not in this function"))
+                continue
             rep.check(len(sq) == 1 and len(stored) == 1, "R-C18-j", f2.fq, "%s, %s: the standard deviation is computed and stored once" % (q.split(".")[-1], "weighted" if wmode else "unweighted"), "",
                       "%d sqrt call(s), %d store(s) of a square root: the result region is never written on this branch" % (len(sq), len(stored)), witness={"inputs": "every cell stays NaN"})
             if wmode:
